@@ -78,6 +78,7 @@ def run(res, tier, replay):
     res.oblige("correspondence: model cksum = C cabd_checksum on %d buffers" % len(cases), not diffs, str(diffs[:2]))
     from props import cabtamper
     tam = cabtamper.search(res, tier, rng)
+    cabtamper.search_sets(res, tier, rng)
     oab_tamper(res, tier, rng)
     if not proofs_ok or diffs:
         def s():
